@@ -303,6 +303,7 @@ where
         assert_eq!(a.n(), self.n() as u32);
         assert_eq!(res.n(), self.n() as u32);
         assert_eq!(a.rank(), res.rank());
+        assert_eq!(res.base2k(), a.base2k());
         let cols = res.rank().as_usize() + 1;
         for i in 0..cols {
             self.vec_znx_negate(res.data_mut(), i, a.data(), i);
@@ -443,6 +444,7 @@ where
         assert_eq!(a.n(), self.n() as u32);
         assert_eq!(res.n(), self.n() as u32);
         assert!(res.rank() == a.rank() || a.rank() == 0);
+        assert_eq!(res.base2k(), a.base2k());
 
         let res_cols = (res.rank() + 1).into();
         let a_cols = (a.rank() + 1).into();
@@ -542,6 +544,7 @@ where
         assert_eq!(res.n(), self.n() as u32);
         assert_eq!(a.n(), self.n() as u32);
         assert_eq!(res.rank(), a.rank());
+        assert_eq!(res.base2k(), a.base2k());
 
         for i in 0..res.rank().as_usize() + 1 {
             self.vec_znx_mul_xp_minus_one(k, res.data_mut(), i, a.data(), i);
@@ -577,6 +580,7 @@ where
         assert_eq!(res.n(), self.n() as u32);
         assert_eq!(a.n(), self.n() as u32);
         assert!(res.rank() == a.rank() || a.rank() == 0);
+        assert_eq!(res.base2k(), a.base2k());
 
         let min_rank: usize = res.rank().min(a.rank()).as_usize() + 1;
 
